@@ -2,6 +2,7 @@ import Driver.Io
 import Driver.GetData
 import Driver.Dns
 import Driver.Uptime
+import Driver.Rs
 
 def main (args : List String) : IO UInt32 := do
   match args with
@@ -9,4 +10,5 @@ def main (args : List String) : IO UInt32 := do
   | ["getdata"] => Driver.GetDataDrv.main; return 0
   | ["dns"] => Driver.DnsDrv.main; return 0
   | ["uptime"] => Driver.UptimeDrv.main; return 0
+  | ["rs"] => Driver.RsDrv.main; return 0
   | _ => IO.eprintln "usage: svdrv <subsystem>"; return 2
